@@ -383,6 +383,8 @@ def get_confirmed_edges_for_node(graph: nx.MultiDiGraph, node: DSGNode, include_
 
         # Load from cache if available
         if node in conf_edges_cache:
+            # Also known to the current walk: a node reached again later in this walk takes over these edges
+            _traversed[node] = conf_edges_cache[node].copy()
             return conf_edges_cache[node].copy()
 
     # Loop over outgoing edges
